@@ -285,7 +285,8 @@ class Ctx:
         }
         # evidence under /verif/evidence only when the run is against /repo itself; scratch runs
         # (VERIF_REPO pointing at a worktree, e.g. with a seeded change applied) write next to their build
-        evdir = os.path.join(VERIF, "evidence") if os.path.realpath(REPO) == "/repo" else os.path.join(BROOT, "evidence-scratch")
+        evdir = (os.path.join(VERIF, "evidence") if (os.path.realpath(REPO) == "/repo" and not self.replay)
+                 else os.path.join(BROOT, "evidence-scratch"))      # --replay runs never overwrite the evidence
         os.makedirs(evdir, exist_ok=True)
         with open(os.path.join(evdir, self.pid + ".json"), "w") as f:
             json.dump(ev, f, indent=1, sort_keys=True)
